@@ -14,6 +14,7 @@
 //   stack <I1> <L1> <I2> <L2> s1..sN | t1..tN          (only with -DCV_STACK=1; I in nn|lin)
 //       affine(translation t)<I1<L1<array>>> -> affine<I2<L2<array>>>;
 //       answer: "ok <st2> | cfg s.. | matrix <0|1> | lookups <queried> <mismatches> | intact <0|1> | move <0|1>"
+#include "arr_access.hpp"
 #include <covfie/core/backend/primitive/array.hpp>
 #include <covfie/core/backend/transformer/affine.hpp>
 #include <covfie/core/backend/transformer/hilbert.hpp>
@@ -81,9 +82,9 @@ template <typename Coord> Coord mk(const std::vector<u64> & c) {
 }
 // storage of an array owning data decoded to cell ids
 template <typename AO> std::vector<u64> decode(const AO & a) {
-  std::vector<u64> ids(a.m_size);
-  for (u64 i = 0; i < a.m_size; ++i) {
-    const auto & cell = a.m_ptr[i];
+  std::vector<u64> ids(vf::arr_size(a));
+  for (u64 i = 0; i < vf::arr_size(a); ++i) {
+    const auto & cell = vf::arr_data(a)[i];
     bool zero = true; for (std::size_t q = 0; q < M; ++q) zero = zero && cell[q] == T(0) && !std::signbit(cell[q]);
     if (zero) { ids[i] = 0; continue; }
     T v0 = cell[0];
@@ -95,8 +96,8 @@ template <typename AO> std::vector<u64> decode(const AO & a) {
   return ids;
 }
 template <typename AO> std::vector<unsigned char> raw(const AO & a) {
-  std::vector<unsigned char> r(a.m_size * sizeof(typename A::vector_t));
-  if (!r.empty()) std::memcpy(r.data(), a.m_ptr.get(), r.size());
+  std::vector<unsigned char> r(vf::arr_size(a) * sizeof(typename A::vector_t));
+  if (!r.empty()) std::memcpy(r.data(), vf::arr_data(a), r.size());
   return r;
 }
 std::string show(const std::vector<u64> & ids, bool full) {
